@@ -111,7 +111,7 @@ func cmdCase(s *cases.Set, up bool, b []byte) {
 			o = cq.Ok(macfmt.Item(&mc))
 		}
 	}()
-	s.Add(cases.Case{Term: fmt.Sprintf("CCmd %v %s %s", up, cq.Bytes(b), o), Key: fmt.Sprintf("cmd:up=%v:%x", up, b), Kind: "mac-command", Nontrivial: o != cq.Err,
+	s.Add(cases.Case{Term: fmt.Sprintf("CCmd %v %s %s %s", up, histTerm(), cq.Bytes(b), o), Key: fmt.Sprintf("cmd:up=%v:%x", up, b), Kind: "mac-command", Nontrivial: o != cq.Err,
 		Replay: map[string]interface{}{"api": "MACCommand.UnmarshalBinary", "uplink": up, "bytes": fmt.Sprintf("%x", b)}})
 }
 
@@ -181,7 +181,8 @@ func main() {
 		n = 4000
 	}
 	// negative proprietary sizes (finding C09-1, fixed by 697fad2): must be refused, and decoding must return
-	for _, size := range []int{-1, -2, -300} {
+	zeroSizeOK := true
+	for _, size := range []int{-1, -2, -300, 0, 3} {
 		cmd := exec.Command(os.Args[0], "--child", "true", "128", strconv.Itoa(size))
 		var out bytes.Buffer
 		cmd.Stdout, cmd.Stderr = &out, &out
@@ -193,15 +194,22 @@ func main() {
 		case err := <-done:
 			if err != nil {
 				what = "decoder crashed after registering a negative size: " + strings.TrimSpace(out.String())
-			} else if !strings.Contains(out.String(), "registered=false") {
+			} else if size < 0 && !strings.Contains(out.String(), "registered=false") {
 				what = "RegisterProprietaryMACCommand accepted a negative size: " + strings.TrimSpace(out.String())
 			}
 		case <-time.After(5 * time.Second):
 			_ = cmd.Process.Kill()
-			what = "decoding a stream after registering a negative proprietary size does not return (killed after 5 s)"
+			what = fmt.Sprintf("decoding a stream after RegisterProprietaryMACCommand(size %d) does not return (killed after 5 s)", size)
 		}
 		if what != "" {
-			s.Fail(cases.GoFail{Key: fmt.Sprintf("negative-proprietary-size:%d", size), What: what,
+			if size >= 0 {
+				zeroSizeOK = false
+			}
+			key := fmt.Sprintf("negative-proprietary-size:%d", size)
+			if size >= 0 {
+				key = fmt.Sprintf("register-then-decode:size=%d", size)
+			}
+			s.Fail(cases.GoFail{Key: key, What: what,
 				Replay: map[string]interface{}{"api": "RegisterProprietaryMACCommand(true, 0x80, size) then DecodeFRMPayloadToMACCommands([0x80 1 2 3])", "size": size}})
 		}
 	}
@@ -211,9 +219,27 @@ func main() {
 		cid  byte
 		size int
 	}{{true, 0x80, 3}, {false, 0x81, 1}, {true, 0xff, 20}, {false, 0x80, 0}, {true, 0x10, 4}} {
+		if !zeroSizeOK {
+			break // the child probes showed registration poisons later decodes: do not hang this process
+		}
 		_ = lorawan.RegisterProprietaryMACCommand(h.up, lorawan.CID(h.cid), h.size)
 		history = append(history, fmt.Sprintf("(%v, %d, %s)", h.up, h.cid, cq.Z(int64(h.size))))
 	}
+	// every MType x every short length: the boundary cases of the length guards
+	for mt := 0; mt < 8; mt++ {
+		for l := 0; l <= 34; l++ {
+			b := r.Bytes(l)
+			if l > 0 {
+				b[0] = byte(mt) << 5
+			}
+			if l > 1 && mt == 6 {
+				b[1] = byte(l % 3)
+			}
+			phyCase(s, b, "frame-short")
+			guard(s, "PHYPayload.UnmarshalBinary", b, func(x []byte) { var q lorawan.PHYPayload; _ = q.UnmarshalBinary(x) })
+		}
+	}
+	s.Exhaustive("frame decoder: 8 MTypes x lengths 0..34")
 	hexd := []byte("0123456789abcdefABCDEF")
 	for i := 0; i < n; i++ {
 		l := r.Intn(513)
